@@ -139,7 +139,7 @@ func GoValue(vr *Variant, f *FieldInfo, tt reflect.Type, v Val, elem bool) refle
 	case reflect.Interface:
 		return unionValue(vr, f, tt, v)
 	case reflect.Slice: // Binary
-		b := reflect.MakeSlice(tt, len(v.B), len(v.B))
+		b := reflect.MakeSlice(tt, len(v.B), binCap(v.B))
 		reflect.Copy(b, reflect.ValueOf(v.B))
 		return b
 	}
@@ -165,7 +165,7 @@ func setScalar(x reflect.Value, v Val) {
 			x.SetBool(v.Bool)
 		}
 	case reflect.Slice:
-		b := reflect.MakeSlice(x.Type(), len(v.B), len(v.B))
+		b := reflect.MakeSlice(x.Type(), len(v.B), binCap(v.B))
 		reflect.Copy(b, reflect.ValueOf(v.B))
 		x.Set(b)
 	default:
@@ -186,7 +186,7 @@ func unionValue(vr *Variant, f *FieldInfo, ut reflect.Type, v Val) reflect.Value
 			x = reflect.New(v.ET).Elem()
 			x.SetInt(v.I)
 		case KBin:
-			x = reflect.MakeSlice(vr.BinaryType, len(v.B), len(v.B))
+			x = reflect.MakeSlice(vr.BinaryType, len(v.B), binCap(v.B))
 			reflect.Copy(x, reflect.ValueOf(v.B))
 		case KEmpty:
 			x = reflect.New(vr.EmptyType).Elem()
@@ -218,7 +218,7 @@ func unionValue(vr *Variant, f *FieldInfo, ut reflect.Type, v Val) reflect.Value
 		raw = reflect.New(v.ET).Elem()
 		raw.SetInt(v.I)
 	case KBin:
-		raw = reflect.MakeSlice(vr.BinaryType, len(v.B), len(v.B))
+		raw = reflect.MakeSlice(vr.BinaryType, len(v.B), binCap(v.B))
 		reflect.Copy(raw, reflect.ValueOf(v.B))
 	case KInt8:
 		raw = reflect.ValueOf(int8(v.I))
@@ -255,4 +255,14 @@ func unionValue(vr *Variant, f *FieldInfo, ut reflect.Type, v Val) reflect.Value
 // unexported returns an addressable, settable view of an unexported struct field.
 func unexported(f reflect.Value) reflect.Value {
 	return reflect.NewAt(f.Type(), unsafe.Pointer(f.UnsafeAddr())).Elem()
+}
+
+// binCap is the capacity binary values are built with: a zero-length value gets spare capacity, the way a
+// caller that reuses a buffer (buf[:0]) holds it, so that code which keeps the slice header instead of
+// copying it shares memory that a later append writes to.
+func binCap(b []byte) int {
+	if len(b) == 0 {
+		return 8
+	}
+	return len(b)
 }
